@@ -6,7 +6,8 @@ From Coq.Strings Require Import Byte.
 From GI Require Import Lib.Bytes Gen.TxtarWriteConsts Txtar.Txtar
   TxtarWrite.Path TxtarWrite.TxtarWrite TxtarWrite.PathFacts TxtarWrite.WriteFacts
   TxtarWrite.FuelFacts TxtarWrite.NulFacts TxtarWrite.RelFacts TxtarWrite.RelWrite TxtarWrite.GoodWrite
-  TxtarWrite.SavedirFacts TxtarWrite.NameFacts TxtarWrite.SortFacts TxtarWrite.WalkFacts.
+  TxtarWrite.SavedirFacts TxtarWrite.NameFacts TxtarWrite.SortFacts TxtarWrite.WalkFacts
+  TxtarWrite.Symlink TxtarWrite.SymlinkFacts.
 Import ListNotations.
 
 (* A cleaned name that the guard of Write lets through (not absolute, not "..", no
@@ -182,3 +183,24 @@ Theorem C15_created_modes :
   N.land (created_mode 18 Dir) 448 = 448%N /\ forall d, N.land (created_mode 18 (File d)) 384 = 384%N.
 Proof. exact created_modes_usable. Qed.
 Print Assumptions C15_created_modes.
+
+(* THE SCOPE BOUNDARY: symbolic links inside the target directory.  In the variant of the
+   model with links (Symlink.v: the kernel follows links in every directory component of a
+   path name, Write's names are purely lexical) containment is REFUTED: a directory that
+   already contains  link -> ../out  lets the entry "link/x" create a file in out.  The
+   runner observes the same on the real code and records it as a note, not as a violation
+   (the property speaks of pre-existing files; an archive cannot create links). *)
+Theorem C15_symlink_containment_refuted :
+  exists fs dir files fs' p,
+    sget fs (resolve [] dir ++ [sl_link_name]) = Some (SLink sl_link_target) /\
+    s_write [] fs dir files = (fs', SOk) /\
+    sget fs p = None /\ sget fs' p <> None /\ ~ within (resolve [] dir) p.
+Proof. exact symlink_containment_refuted. Qed.
+Print Assumptions C15_symlink_containment_refuted.
+
+(* ... what does survive links: nothing that exists (file, directory, link, or the file a
+   link in the last component points to) is ever changed *)
+Theorem C15_symlink_never_overwrites : forall cwd dir files fs fs' r,
+  s_write cwd fs dir files = (fs', r) -> forall p x, sget fs p = Some x -> sget fs' p = Some x.
+Proof. exact symlink_never_overwrites. Qed.
+Print Assumptions C15_symlink_never_overwrites.
